@@ -42,7 +42,7 @@ PROPS = {
         "engine": "pure", "level": "exploration", "race": False,
         "quick": {"runs": 3000, "budget_s": 120},
         "thorough": {"runs": 250000, "budget_s": 1500},
-        "rule": "one run = one seeded history of 8-40 operations over 2-4 argument sets (model, 1-3 cells, parameter sets, inputs, states) and a pool of model objects: re-run on the same object, on a fresh object, after other models ran, after the caller overwrote the buffers of earlier calls, with the input series truncated at t or its tail replaced, and two models concurrently as tasks under the seeded scheduler; every execution is compared bit-for-bit with the first execution of the same arguments in that history; non-trivial = the history contains at least one re-execution after another operation",
+        "rule": "one run = one seeded history of 8-40 operations over 2-4 argument sets (model, 1-3 cells, parameter sets, inputs, states) and a pool of model objects: re-run on the same object, on a fresh object, after other models ran, after the caller overwrote the buffers of earlier calls, with the input series truncated at t or its tail replaced, as a continuation (a new argument set whose initial states are the final states of an earlier execution, executed at the hand-over and again later), and two models concurrently as tasks under the seeded scheduler; every execution is compared bit-for-bit with the first execution of the same arguments in that history; non-trivial = the history contains at least one re-execution after another operation",
         "real": REAL_MODELS, "stub": STUB_NONE, "assumptions": SIM_ASSUME + ["the pristine result of an argument set is its first execution on a fresh object within the same history (so that a replay in a fresh process sees the same history)"],
     },
     "C17": {
